@@ -93,6 +93,7 @@ type dest struct {
 	arg   interface{}          // what Unmarshal receives
 	val   func() reflect.Value // the decoded value
 	check func() string        // "" or what was overwritten
+	desc  string               // state of a slice receiver before decoding
 }
 
 func canaryElem(t reflect.Type) reflect.Value {
@@ -106,6 +107,20 @@ func canaryElem(t reflect.Type) reflect.Value {
 		v.SetString("\x00CANARY\x00")
 	default:
 		panic("canary element " + t.String())
+	}
+	return v
+}
+
+// oldElem is the pattern a receiver is pre-filled with (distinct from the canary).
+func oldElem(t reflect.Type) reflect.Value {
+	v := reflect.New(t).Elem()
+	switch t.Kind() {
+	case reflect.Uint8:
+		v.SetUint(0x5C)
+	case reflect.Int:
+		v.SetInt(0x0DD00DD0)
+	case reflect.String:
+		v.SetString("OLD")
 	}
 	return v
 }
@@ -143,22 +158,45 @@ func newDest(s *spec, r *core.Rand, encLen int, roundtrip bool) *dest {
 	} else {
 		L = []int{0, encLen, encLen + 5, encLen / 2, 3}[r.Intn(5)]
 		S = []int{0, 4, encLen + 8}[r.Intn(3)]
-		if s.fresh {
+		short := 0
+		if encLen > 0 {
+			short = r.Intn(encLen)
+		}
+		switch s.dclass {
+		case "fresh":
 			L = 0
+		case "longer":
+			L, S = encLen+1+r.Intn(40), []int{0, 4}[r.Intn(2)]
+		case "equal":
+			L, S = encLen, []int{0, 4}[r.Intn(2)]
+		case "shorter-cap":
+			L, S = short, encLen-short+r.Intn(8)
+		case "shorter-nocap":
+			L, S = short, 0
+			if encLen-short > 1 {
+				S = r.Intn(encLen - short)
+			}
+		case "nil":
+			pv := reflect.New(s.typ)
+			return &dest{arg: pv.Interface(), val: func() reflect.Value { return pv.Elem() }, check: func() string { return "" }, desc: "nil slice"}
 		}
 	}
 	can := canaryElem(s.typ.Elem())
+	old := oldElem(s.typ.Elem())
 	back := reflect.MakeSlice(s.typ, guard+L+S+guard, guard+L+S+guard)
 	for i := 0; i < back.Len(); i++ {
 		if i < guard || i >= guard+L {
 			back.Index(i).Set(can)
+		} else {
+			back.Index(i).Set(old) // what the receiver held before
 		}
 	}
 	d := back.Slice3(guard, guard+L, guard+L+S)
 	pv := reflect.New(s.typ)
 	pv.Elem().Set(d)
 	byVal := s.dest == destSliceVal
-	out := &dest{arg: pv.Interface(), val: func() reflect.Value { return pv.Elem() }}
+	out := &dest{arg: pv.Interface(), val: func() reflect.Value { return pv.Elem() },
+		desc: fmt.Sprintf("len %d cap %d, pre-filled with %v", L, L+S, old.Interface())}
 	if byVal {
 		out.arg = d.Interface()
 		out.val = func() reflect.Value { return d }
@@ -252,6 +290,9 @@ func roundtrip(s *spec, p reflect.Value, byValue bool, r *core.Rand) *failure {
 	keep := append([]byte(nil), data...)
 	w["encoded"] = showBytes(data)
 	d := newDest(s, r, len(data), true)
+	if d.desc != "" {
+		w["receiver_before"] = d.desc
+	}
 	err, pn = safely(func() error { return s.cd.Unmarshal(data, d.arg) })
 	if pn != nil {
 		w["panic"], w["where"] = pn.msg, pn.where
@@ -271,6 +312,12 @@ func roundtrip(s *spec, p reflect.Value, byValue bool, r *core.Rand) *failure {
 	got := d.val()
 	ok, path := deq(p.Elem(), got, s.cfg.eq)
 	if ok {
+		return nil
+	}
+	if s.codec == "bypass" && len(data) == 0 {
+		// Message.UnmarshalBody returns before looking at the receiver when the body is empty: a
+		// receiver that held something keeps it. Recorded, not judged (nothing was decoded).
+		core.Add("bypass_empty_body_receiver_left_untouched dest-"+s.dclass, 1)
 		return nil
 	}
 	w["decoded"] = show(got.Interface())
@@ -380,9 +427,15 @@ type engine struct {
 func (e *engine) evalOne(g *group, k int) bool {
 	r := core.NewRand(*seed, hashName(g.name), int64(k))
 	s := g.s
+	if b, ok := s.cd.(*bypass); ok {
+		b.id = bypassIDs[(k/7)%len(bypassIDs)].id
+	}
 	if g.mode == "roundtrip" {
 		vclass := s.vclasses[k%len(s.vclasses)]
 		core.Distinct("nontrivial", s.codec+"/"+s.tclass+"/"+vclass)
+		if _, ok := s.cd.(*bypass); ok {
+			core.Distinct("bypass_codec_ids", s.tclass+"/id="+bypassIDs[(k/7)%len(bypassIDs)].name)
+		}
 		p := generate(s, r, vclass)
 		byValue := s.pass == "value" || (s.pass == "either" && r.Intn(2) == 0)
 		rr := core.NewRand(*seed, hashName(g.name), int64(k), 7)
